@@ -48,7 +48,12 @@ def dims_arg(kind, variant, workdir, cache=None):
             cache["single_df"] = pd.DataFrame([[100.0, 120.0, float(DIMZ[1])]])
             return cache["single_df"]
         return np.array([100, 120, DIMZ[1]])
-    table = np.array([[t, 100, 120 + t, DIMZ[t]] for t in sorted(DIMZ)], dtype=float)
+    # the table lists the tomograms in any order and may list tomograms that hold no particle
+    rows = [[t, 100, 120 + t, DIMZ[t]] for t in sorted(DIMZ)] + [[9, 90, 90, 33], [5, 70, 80, 21]][: variant % 3]
+    rows = rows[(variant // 3) % len(rows):] + rows[: (variant // 3) % len(rows)]
+    if (variant // 7) % 2:
+        rows = rows[::-1]
+    table = np.array(rows, dtype=float)
     if variant % 3 == 0 and cache is None:
         return table
     if variant % 3 in (0, 1):
@@ -163,7 +168,12 @@ def gen_float_case(rng, idx):
         ang = [rng.uniform(-360, 360), rng.choice([0.0, 180.0, -180.0, rng.uniform(-180, 180), rng.uniform(0, 180)]),
                rng.uniform(-360, 360)]
         pos = [float(rng.randint(-50, 200)) for _ in range(3)]
-        if rng.random() < 0.3:
+        if rng.random() < 0.25:
+            # sub-voxel extraction positions (e.g. after scaling), often with no shift at all
+            pos = [p + rng.choice([0.5, 0.25, -0.3, 0.0]) for p in pos]
+        if rng.random() < 0.2:
+            sh = [0.0, 0.0, 0.0]
+        elif rng.random() < 0.3:
             sh = [rng.choice([0.5, -0.5, 1.5, -2.5, 0.0]) for _ in range(3)]
         else:
             sh = [round(rng.uniform(-6, 6), 3) for _ in range(3)]
@@ -216,8 +226,9 @@ def run_float(ctx, cases):
         motl = cryomotl.Motl(motlutil.vary_index(motlutil.df_from_cols(cols), case["id"]))
         events = []
         aborted = None
-        dims_table = pd.DataFrame(np.array([[int(t)] + list(d) for t, d in sorted(case["dims"].items())], dtype=float),
-                                  columns=["tomo_id", "x", "y", "z"])      # one object for the whole history
+        drows = [[int(t)] + list(d) for t, d in sorted(case["dims"].items())] + [[77, 50, 60, 70]]
+        drows = drows[case["id"] % len(drows):] + drows[: case["id"] % len(drows)]       # any row order, an unused tomogram
+        dims_table = pd.DataFrame(np.array(drows, dtype=float), columns=["tomo_id", "x", "y", "z"])      # one object for the whole history
         for si, st in enumerate(case["steps"]):
             pre_c = np.asarray(motl.get_coordinates(), dtype=float).copy()
             pre_a = motl.df[["phi", "theta", "psi"]].to_numpy(dtype=float).copy()
@@ -241,7 +252,7 @@ def run_float(ctx, cases):
                     elif si % 2:
                         motl.flip_handedness(dims_table)
                     else:
-                        motl.flip_handedness(np.array([[int(t)] + list(d) for t, d in sorted(case["dims"].items())], dtype=float))
+                        motl.flip_handedness(np.array(drows[::-1], dtype=float))
             _, err = core.call_guarded(do)
             if err is not None:
                 aborted = (si, err)
